@@ -29,7 +29,7 @@ VOCAB = {
     "current_interactive", "eval_cost", "g_proceeding_shutdown", "slow_shutdown_to_do", "nb", "timeout", "user_command",
     "ip", "heart_beat_flag",
     # members
-    "iflags", "last_time", "ob", "message_length", "tv_sec",
+    "iflags", "last_time", "ob", "message_length", "tv_sec", "text_start", "text_end", "text",
 }
 
 
@@ -149,4 +149,10 @@ def generate(bdir):
     fp = ast_function(bdir, "src/comm.c", "process_user_command")
     out.append(lean_list("pucOrder", "C (process_user_command): top-level statements, in order",
                          order(kids(body_of(fp)))))
+    # ---- the three buffer scanners the scheduler relies on (C13 owns the bytes; here: which statements touch
+    #      text_start / text_end / iflags, in which order)
+    for fn in ("first_cmd_in_buf", "cmd_in_buf", "next_cmd_in_buf"):
+        f = ast_function(bdir, "src/comm.c", fn)
+        out.append(lean_list(fn.replace("_", " ").title().replace(" ", "")[0].lower() + fn.replace("_", " ").title().replace(" ", "")[1:] + "Order",
+                             "C (%s): top-level statements that touch the text buffer, in order" % fn, order(kids(body_of(f)))))
     return "\n".join(out)
